@@ -81,6 +81,19 @@ pub open spec fn rep_sep_toks(xs: Seq<TokenStream>, sep: u64, n: int) -> Seq<Tok
     else if n == 1 { xs[0]@ }
     else { rep_sep_toks(xs, sep, n - 1).add(Seq::<Tok>::empty().push(Tok::T(sep))).add(xs[n - 1]@) }
 }
+// rep_toks only looks at the first n elements (verified, not assumed)
+pub broadcast proof fn lemma_rep_toks_push(xs: Seq<TokenStream>, x: TokenStream, n: int)
+    requires n <= xs.len()
+    ensures #[trigger] rep_toks(xs.push(x), n) == rep_toks(xs, n)
+    decreases n
+{
+    if n > 0 { lemma_rep_toks_push(xs, x, n - 1); }
+}
+pub broadcast proof fn lemma_rep_toks_snoc(xs: Seq<TokenStream>, x: TokenStream)
+    ensures rep_toks(#[trigger] xs.push(x), xs.len() as int + 1) == rep_toks(xs, xs.len() as int).add(x@)
+{
+    lemma_rep_toks_push(xs, x, xs.len() as int);
+}
 #[verifier::external_body]
 pub fn vx_ts_rep(t: &mut TokenStream, xs: &Vec<TokenStream>)
     ensures final(t)@ == old(t)@.add(rep_toks(xs@, xs@.len() as int)) { unimplemented!() }
